@@ -1317,7 +1317,8 @@ class Crystal(object):
         lis = []
         zero = np.zeros(self.dim, dtype=int)
         for u in (self.g_vect(g, zero, uvec)[1] for g in self.G):
-            if not np.any([self.__isclose__(u, u1) for u1 in lis]):
+            # compare modulo the lattice: images that differ by round-off can sit on opposite faces of the cell
+            if not np.any([self.__iszero__(inhalf(u - u1)) for u1 in lis]):
                 lis.append(u)
         return lis
 
